@@ -36,12 +36,17 @@ def mk(rng, tier):
         N = rng.randint(1, 4)
         case['N'] = N
         case['x'] = rand_coeffs(rng, (D, P, N * (N + 1) // 2), -2, 2)
+        if rng.random() < 0.3:
+            case['x'] = case['x'] + 1j * rand_coeffs(rng, (D, P, N * (N + 1) // 2), -2, 2)      # complex values lose nothing either
     elif kind == 'basedirs':
         shape = rand_shape(rng, 2, 3)
         case['x'] = rand_coeffs(rng, shape, -2, 2)
         case['V'] = rand_coeffs(rng, shape + (P, D), -2, 2)
-        case['xkind'] = rng.choice(['float', 'float', 'int-array', 'int-list', 'float32'])
-        if case['xkind'] != 'float':
+        case['xkind'] = rng.choice(['float', 'float', 'int-array', 'int-list', 'float32', 'complex'])
+        if case['xkind'] == 'complex':
+            case['x'] = case['x'] + 1j * rand_coeffs(rng, shape, -2, 2)
+            case['V'] = case['V'] + 1j * rand_coeffs(rng, shape + (P, D), -2, 2)
+        if case['xkind'] not in ('float', 'complex'):
             case['x'] = np.round(case['x'] * 2)        # integer-valued base point, non-integer directions
     elif kind == 'utpm2dirs':
         case['x'] = rand_coeffs(rng, (D, P) + rand_shape(rng, 2, 3), -2, 2)
@@ -127,7 +132,8 @@ def run_one(ctx, case):
     if k == 'vecsym':
         v = np.array(case['x'])
         A = algopy.vecsym(UTPM(v.copy()))
-        m = ctx.model.arrs({'op': 'conv', 'what': 'vecsym', 'x': enc_arr(v), 'N': case['N']})[0]
+        cz = bool(np.iscomplexobj(v))
+        m = ctx.model.arrs(dict({'op': 'conv', 'what': 'vecsym', 'x': enc_arr(v, cz), 'N': case['N']}, **({'f': 'QI'} if cz else {})))[0]
         if not np.array_equal(A.data, m):
             return 'vecsym-mismatch: differs from the model'
         if not np.array_equal(algopy.symvec(A).data, v):
@@ -136,16 +142,18 @@ def run_one(ctx, case):
     if k == 'basedirs':
         x, V = np.array(case['x']), np.array(case['V'])
         xk = case.get('xkind', 'float')
-        xin = x if xk == 'float' else (x.astype(int) if xk == 'int-array' else (x.astype(int).tolist() if xk == 'int-list' else x.astype(np.float32)))
+        xin = x if xk in ('float', 'complex') else (x.astype(int) if xk == 'int-array' else (x.astype(int).tolist() if xk == 'int-list' else x.astype(np.float32)))
         try:
             u = utils.base_and_dirs2utpm(xin, V)
         except Exception as ex:
             return 'basedirs-exception: base_and_dirs2utpm raised %s for a base point given as %s' % (type(ex).__name__, xk)
-        m = ctx.model.arrs({'op': 'conv', 'what': 'base_dirs2utpm', 'x': enc_arr(x), 'V': enc_arr(V)})[0]
+        cz = bool(np.iscomplexobj(x) or np.iscomplexobj(V))
+        fz = {'f': 'QI'} if cz else {}
+        m = ctx.model.arrs(dict({'op': 'conv', 'what': 'base_dirs2utpm', 'x': enc_arr(x, cz), 'V': enc_arr(V, cz)}, **fz))[0]
         if not np.array_equal(u.data, m):
             return 'basedirs-mismatch: base_and_dirs2utpm differs from the model'
         x2, V2 = utils.utpm2base_and_dirs(u)
-        mm = ctx.model.arrs({'op': 'conv', 'what': 'utpm2base_dirs', 'x': enc_arr(u.data)})
+        mm = ctx.model.arrs(dict({'op': 'conv', 'what': 'utpm2base_dirs', 'x': enc_arr(u.data, cz)}, **fz))
         if not (np.array_equal(x2, mm[0]) and np.array_equal(V2, mm[1])):
             return 'basedirs-mismatch: utpm2base_and_dirs differs from the model'
         if not (np.array_equal(x2, x) and np.array_equal(V2, V)):
@@ -255,6 +263,15 @@ def pivot_fails(ctx, piv, rng):
     PIV, Lu, Uu = UTPM.lu2(Au)
     if not np.array_equal(UTPM.piv2mat(PIV).data[0, 0], W):
         return 'UTPM.piv2mat differs from utils.piv2mat for piv=%s' % piv
+    # the pivot vector returned by UTPM.lu_factor converts the same way
+    try:
+        LUf, PIVf = UTPM.lu_factor(UTPM(A.reshape((1, 1, N, N)).copy()))
+        Wf = UTPM.piv2mat(PIVf).data[0, 0]
+        df = UTPM.piv2det(PIVf)
+    except Exception as ex:
+        return 'lu_factor-pivots: the pivot vector returned by UTPM.lu_factor cannot be converted (piv2mat / piv2det raised %s) for piv=%s' % (type(ex).__name__, piv)
+    if not np.array_equal(Wf, W):
+        return 'lu_factor-pivots: piv2mat of the pivots returned by UTPM.lu_factor differs from utils.piv2mat for piv=%s' % piv
     return None
 
 
